@@ -110,6 +110,7 @@ package engine
 //@   props C06
 //@   requires sockLive(s) && s.server.Opts().Transports() != nil
 //@   modifies nothing
+//@   opt splitappend
 //@   let enabled = s.server.Opts().Transports()
 //@   loop 1 invariant forall k int :: 0 <= k && k < len(availableUpgrades) ==> maphas(enabled.cache, availableUpgrades[k])
 //@   loop 1 invariant len(availableUpgrades) <= $i
@@ -569,9 +570,13 @@ package engine
 //@     invariant s.BaseServer != nil && ctxOK(ctx) && session != nil && data != nil
 //@     invariant ctx.Websocket == nil && wtcOK(ctx.WebTransport)
 //@     invariant calls(utils.ClearTimeout) == 1 && calls(abortUpgrade) == 0 && calls(BaseServer.Handshake) == 0 && calls(Socket.MaybeUpgrade) == 0 && calls((*wtgo.Session).CloseWithError) == 0 && calls((*server).CreateTransport) == 0 && calls((*types.Map).Load) == 0
+//@   callsite BaseServer.Handshake#1
+//@     assert [C05.wt.openonly] value != nil && value.Type == packet.OPEN
+//@   callsite json.NewDecoder#1
+//@     assert [C05.wt.openonly2] value != nil && value.Type == packet.OPEN
 //@   let tail    = calls(utils.ClearTimeout) == 1
 //@   let gated   = tail && calls((*types.Map).Load) == 1
-//@   ensures [C05.wt.notopen]  tail && ret(parser.Parser.DecodePacket, 1, 0).Type != packet.OPEN ==> calls(abortUpgrade) == 1 && arg(abortUpgrade, 1, codeMessage) == BAD_REQUEST && calls(BaseServer.Handshake) == 0 && calls(Socket.MaybeUpgrade) == 0
+//@   ensures [C05.wt.notopen]  tail && calls(BaseServer.Handshake) == 0 && calls(json.NewDecoder) == 0 ==> calls(abortUpgrade) == 1 && arg(abortUpgrade, 1, codeMessage) == BAD_REQUEST && calls(Socket.MaybeUpgrade) == 0
 //@   ensures [C05.wt.onehs]    calls(BaseServer.Handshake) <= 1 && (calls(BaseServer.Handshake) == 1 ==> calls(Socket.MaybeUpgrade) == 0 && arg(BaseServer.Handshake, 1, ctx) == ctx)
 //@   ensures [C05.wt.hsreject] calls(BaseServer.Handshake) == 1 && ret(BaseServer.Handshake, 1, 1) == nil ==> calls(abortUpgrade) == 1 && arg(abortUpgrade, 1, codeMessage) == ret(BaseServer.Handshake, 1, 0)
 //@   ensures [C08.wt.unknown]  gated && !ret((*types.Map).Load, 1, 1) ==> calls((*wtgo.Session).CloseWithError) == 1 && calls(Socket.MaybeUpgrade) == 0 && calls(BaseServer.Handshake) == 0
